@@ -96,6 +96,11 @@ pub fn run(input: &Value) -> Case {
     };
     let mut j = input.clone();
     j["impl"] = rj;
+    // Known finding "axis-beyond-i64max": range_bounds works in i64 and saturates the axis length, so axes longer
+    // than i64::MAX (surfaces of zero-sized elements only) are resolved as if they had i64::MAX elements.
+    if n > i64::MAX as usize {
+        j["known_class"] = json!(["axis-beyond-i64max"]);
+    }
     let nn = n as i128;
     let extreme = |x: i128| x < -nn || x > nn;
     let nontrivial = match form.as_str() {
@@ -136,7 +141,10 @@ fn interesting(rng: &mut Rng, t: &str, n: usize) -> i128 {
 pub fn generate(rng: &mut Rng, n: usize, tier: &str) -> Vec<Value> {
     let thorough = tier == "thorough";
     let mut v = vec![];
-    let sizes: [usize; 14] = [0, 1, 2, 3, 10, 100, 127, 128, 255, 256, 300, 1 << 31, (1 << 32) + 3, (i64::MAX as usize)];
+    let sizes: [usize; 17] = [
+        0, 1, 2, 3, 10, 100, 127, 128, 255, 256, 300, 1 << 31, (1 << 32) + 3, (i64::MAX as usize),
+        1 << 63, (1 << 63) + 5, usize::MAX, // beyond i64::MAX: class axis-beyond-i64max
+    ];
     // exhaustive small part: every form, n <= N, bounds in [-B, B], written as i8 and as usize where possible
     let (maxn, maxb) = if thorough { (12i128, 15i128) } else { (4, 6) };
     for nn in 0..=maxn {
